@@ -76,8 +76,17 @@ def generate(batch: str, r: Rng, idx: int, tier: str) -> Dict[str, Any]:
         feat["off"] = False        # Python has no off state to write (known finding under C12)
         n = r.child("len").choice([20, 40, 80])
         direction = "py_to_rs" if idx % 2 == 0 else "rs_to_py"
+        rx = r.child("expand")
+        expand = []
+        if rx.chance(1, 3):
+            # (not next to 0x80000: the byte after the overlay would be in the window that only the Rust machine mirrors)
+            expand = [[rx.choice([0x50000, 0x60000, 0x68000]), rx.choice([0x400, 0x1000, 0x8000])]]
+            feat["xram"] = expand[0]
         scn = machine.gen_machine_scenario(r, "py-machine" if direction == "py_to_rs" else "rs-machine", feat,
                                            boundaries=n, faulty=True)
+        scn["expand"] = expand
+        for xs, xn in expand:
+            scn["watch"] = scn["watch"] + [[xs - 1, 3], [xs + xn - 2, 3]]
         scn["final_state"] = True
         scn["kind"] = "cross"
         scn["direction"] = direction
@@ -223,7 +232,7 @@ def _execute_cross(scn: Dict[str, Any]) -> Dict[str, Any]:
             writer_final = machine.py_final(emu)
             writer_extra = {"pending": bool(emu._irq_pending), "in_interrupt": bool(emu._in_interrupt)}
             emu.save_snapshot(path)
-            out = host().call([["m.new", 0, {}], ["m.load", 0, path], ["m.obs", 0, watch], ["m.lcd", 0],
+            out = host().call([["m.new", 0, {"expand": machine.rs_expand(scn)}], ["m.load", 0, path], ["m.obs", 0, watch], ["m.lcd", 0],
                                ["m.timerstate", 0], ["m.read", 0, 0x100000, 256]])
             loaded, robs, lcd, tm, imem = out[0], out[1], out[2], out[3], out[4]
             reader_final = {"lcd": {"meta": machine._canon_lcd_meta((lcd or {}).get("meta")), "vram": (lcd or {}).get("vram")},
